@@ -17,7 +17,10 @@ def Expr.c : Expr → String
   | .bool b => if b then "true" else "false"
   | .str t => "\"" ++ String.ofList (Esc.escape t.toList) ++ "\""      -- `_escape_string_literal`
   | .var x => x
-  | .bin op a b => s!"({a.c} {op.sym} {b.c})"
+  -- `if isinstance(n.op, ast.Add) and left_c.startswith('"'): left_c = f"String({left_c})"` (only a literal starts with a quote)
+  | .bin op a b => (match op, a with
+    | .add, .str _ => s!"(String({a.c}) {op.sym} {b.c})"
+    | _, _ => s!"({a.c} {op.sym} {b.c})")
   | .neg a => s!"({negSym}{a.c})"
   | .cmp op a b => s!"({a.c} {op.sym} {b.c})"
   | .and a b => s!"({a.c} && {b.c})"
@@ -26,6 +29,7 @@ def Expr.c : Expr → String
   | .ite c a b => s!"({c.c} ? {a.c} : {b.c})"
   | .abs a => s!"abs({a.c})"
   | .mm k a b => s!"{k.name}({a.c}, {b.c})"
+  | .toStr a => s!"String({a.c})"
 
 def Ty.c : Ty → String | .int => "int" | .bool => "bool" | .string => "String"
 
